@@ -384,3 +384,10 @@ Definition load_ok (root : path) (o : op) : Prop :=
       end
   | _ => True
   end.
+
+(** What a call may change: only configuration directories named by well-formed ids, and
+    only the repo directory object the call was made on; never which paths are directories. *)
+Definition frame (w w' : world) (p : path) : Prop :=
+  w_dirs w' = w_dirs w
+  /\ (forall id, id_okb id = false -> cfg_at w' id = cfg_at w id)
+  /\ (forall q oq, dir_obj w q = Some oq -> dir_obj w p <> Some oq -> repo_at w' q = repo_at w q).
